@@ -165,6 +165,8 @@ def run(ctx):
     r5(ctx, F)
     r6_taiko(ctx, F)
     r7_marks_every_path(ctx, F)
+    from props import C07 as _c07
+    _c07.no_stale_map_reads(ctx, F, 'C14-R8')
     ctx.not_decided('all other counting clauses: n_circles+n_sliders+n_spinners = objects considered, taiko max combo = hits, mania counts, '
                     'catch fruit counts, min(n,total), monotonicity in n, saturation above the total')
 
